@@ -113,7 +113,7 @@ func init() {
 		return Ops{
 			Less: func(i, j int) bool { return slice[i] < slice[j] },
 			HashWithSeed: func(i int, seed uint32) uint32 {
-				return hash32(math.Float32bits(slice[i]), seed)
+				return hash32(math.Float32bits(slice[i]+0), seed) // +0: -0.0 == 0.0 must hash alike
 			},
 		}
 	})
@@ -122,7 +122,7 @@ func init() {
 		return Ops{
 			Less: func(i, j int) bool { return slice[i] < slice[j] },
 			HashWithSeed: func(i int, seed uint32) uint32 {
-				return hash64(math.Float64bits(slice[i]), seed)
+				return hash64(math.Float64bits(slice[i]+0), seed) // +0: -0.0 == 0.0 must hash alike
 			},
 		}
 	})
